@@ -254,6 +254,7 @@ theorem frame_store {root : Path} {fs fs' : PFS} {k : Key} {d : Data} {m : UMeta
     (h : File.store root fs k d m = .ok fs') : Frame root fs fs' := by
   unfold File.store at h
   obtain ⟨p, hp, h⟩ := Except.bind_ok h
+  obtain ⟨_, _, h⟩ := Except.bind_ok h
   obtain ⟨fs1, h1, h⟩ := Except.bind_ok h
   obtain ⟨fs2, h2, h⟩ := Except.bind_ok h
   have hpe := File.path_eq hp
